@@ -182,7 +182,7 @@ Definition doc_table : list (string * list (string * sval)) :=
    ("enclosing_local_capture(D,bm)", [("declaration", Arg 0); ("mode", Arg 1); ("name", Proj "name" 0)]);
    ("expansion_capture(NC)", [("what", Arg 0)]);
    ("implicit_object_capture(bm)", [("how", Arg 0)]);
-   ("make_phased_evaluation(E,ph)", [("category", Lit "Phased_evaluation"); ("expression", Arg 0); ("phases", Arg 1); ("type", Lit "E")]);
+   ("make_phased_evaluation(E,ph)", [("category", Lit "Phased_evaluation"); ("expression", Arg 0); ("phases", Arg 1); ("type", Proj "type" 0)]);
    ("make_pragma()", [("category", Lit "Pragma"); ("incantation", Lit "[]"); ("operand", Lit "[]"); ("phases", Lit "-1"); ("type", Lit "E")]);
    ("make_specifiers_spread()", [("category", Lit "Specifiers_spread"); ("phases", Lit "240"); ("specifiers", Lit "0"); ("targets", Lit "[]"); ("type", Lit "E")]);
    ("make_structured_binding()", [("category", Lit "Structured_binding"); ("bindings", Lit "[]"); ("initializer", Lit "E"); ("mode", Lit "0"); ("names", Lit "[]"); ("phases", Lit "240"); ("specifiers", Lit "0"); ("type", Lit "E")]);
@@ -276,7 +276,7 @@ Definition doc_table : list (string * list (string * sval)) :=
    ("make_reinterpret_cast(T,E)", [("category", Lit "Reinterpret_cast"); ("expr", Arg 1); ("first", Arg 0); ("second", Arg 1); ("type", Arg 0)]);
    ("make_requires(R,lvl)", [("category", Lit "Requires"); ("body", Lit "[]"); ("parameters", Fmt [Txt "Parameter_list(in:"; PArg 0; Txt ":level:"; PArg 1; Txt ")"]); ("type", Lit "$bool")]);
    ("make_restriction(E)", [("category", Lit "Restriction"); ("operand", Arg 0); ("type", Lit "$bool")]);
-   ("make_rewrite(E,E)", [("category", Lit "Rewrite"); ("first", Arg 0); ("second", Arg 1); ("source", Arg 0); ("target", Arg 1); ("type", Lit "E")]);
+   ("make_rewrite(E,E)", [("category", Lit "Rewrite"); ("first", Arg 0); ("second", Arg 1); ("source", Arg 0); ("target", Arg 1); ("type", Proj "type" 1)]);
    ("make_rshift(E,E,T?)", [("category", Lit "Rshift"); ("first", Arg 0); ("second", Arg 1); ("type", ArgT 2)]);
    ("make_rshift_assign(E,E,T?)", [("category", Lit "Rshift_assign"); ("first", Arg 0); ("second", Arg 1); ("type", ArgT 2)]);
    ("make_scope_ref(E,E,T?)", [("category", Lit "Scope_ref"); ("first", Arg 0); ("member", Arg 1); ("scope", Arg 0); ("second", Arg 1); ("type", ArgT 2)]);
@@ -288,7 +288,7 @@ Definition doc_table : list (string * list (string * sval)) :=
    ("make_unary_minus(E,T?)", [("category", Lit "Unary_minus"); ("operand", Arg 0); ("type", ArgT 1)]);
    ("make_unary_plus(E,T?)", [("category", Lit "Unary_plus"); ("operand", Arg 0); ("type", ArgT 1)]);
    ("make_where(R)", [("category", Lit "Where"); ("attendant", Lit "?Scope"); ("first", Lit "E"); ("main", Lit "E"); ("second", Lit "?Scope"); ("type", Lit "E")]);
-   ("make_where(E,E)", [("category", Lit "Where"); ("attendant", Arg 1); ("first", Arg 0); ("main", Arg 0); ("second", Arg 1); ("type", Lit "E")]);
+   ("make_where(E,E)", [("category", Lit "Where"); ("attendant", Arg 1); ("first", Arg 0); ("main", Arg 0); ("second", Arg 1); ("type", Proj "type" 0)]);
    ("make_widen(E,T,T)", [("category", Lit "Widen"); ("base", Arg 1); ("expr", Arg 0); ("first", Arg 0); ("second", Arg 1); ("type", Arg 2)]);
    ("make_array_morphism()", [("attributes", Lit "[]"); ("bound", Lit "none")]);
    ("make_braced_provision()", [("elements", Lit "[]")]);
@@ -334,13 +334,13 @@ Definition doc_table : list (string * list (string * sval)) :=
    ("make_continue()", [("category", Lit "Continue"); ("attributes", Lit "[]"); ("iteration", Lit "E"); ("type", Lit "$void")]);
    ("make_ctor_body(XL,B)", [("category", Lit "Ctor_body"); ("attributes", Lit "[]"); ("block", Arg 1); ("first", Arg 0); ("inits", Arg 0); ("second", Arg 1); ("type", Lit "E")]);
    ("make_do()", [("category", Lit "Do"); ("attributes", Lit "[]"); ("body", Lit "E"); ("condition", Lit "E"); ("first", Lit "E"); ("second", Lit "E"); ("type", Lit "E")]);
-   ("make_expr_stmt(E)", [("category", Lit "Expr_stmt"); ("attributes", Lit "[]"); ("expr", Arg 0); ("operand", Arg 0); ("type", Lit "E")]);
+   ("make_expr_stmt(E)", [("category", Lit "Expr_stmt"); ("attributes", Lit "[]"); ("expr", Arg 0); ("operand", Arg 0); ("type", Proj "type" 0)]);
    ("make_for()", [("category", Lit "For"); ("attributes", Lit "[]"); ("body", Lit "E"); ("condition", Lit "E"); ("increment", Lit "E"); ("initializer", Lit "E"); ("type", Lit "E")]);
    ("make_for_in()", [("category", Lit "For_in"); ("attributes", Lit "[]"); ("body", Lit "E"); ("sequence", Lit "E"); ("type", Lit "E"); ("variable", Lit "E")]);
-   ("make_goto(E)", [("category", Lit "Goto"); ("attributes", Lit "[]"); ("operand", Arg 0); ("target", Arg 0); ("type", Lit "E")]);
+   ("make_goto(E)", [("category", Lit "Goto"); ("attributes", Lit "[]"); ("operand", Arg 0); ("target", Arg 0); ("type", Proj "type" 0)]);
    ("make_if(E,E)", [("category", Lit "If"); ("alternative", Lit "none"); ("attributes", Lit "[]"); ("condition", Arg 0); ("consequence", Arg 1); ("first", Arg 0); ("second", Arg 1); ("third", Lit "none"); ("type", Lit "E")]);
    ("make_if(E,E,E)", [("category", Lit "If"); ("alternative", Arg 2); ("attributes", Lit "[]"); ("condition", Arg 0); ("consequence", Arg 1); ("first", Arg 0); ("second", Arg 1); ("third", Arg 2); ("type", Lit "E")]);
-   ("make_labeled_stmt(E,E)", [("category", Lit "Labeled_stmt"); ("attributes", Lit "[]"); ("first", Arg 0); ("label", Arg 0); ("second", Arg 1); ("stmt", Arg 1); ("type", Lit "E")]);
+   ("make_labeled_stmt(E,E)", [("category", Lit "Labeled_stmt"); ("attributes", Lit "[]"); ("first", Arg 0); ("label", Arg 0); ("second", Arg 1); ("stmt", Arg 1); ("type", Proj "type" 1)]);
    ("make_return(E)", [("category", Lit "Return"); ("attributes", Lit "[]"); ("operand", Arg 0); ("type", Lit "E"); ("value", Arg 0)]);
    ("make_switch()", [("category", Lit "Switch"); ("attributes", Lit "[]"); ("body", Lit "E"); ("condition", Lit "E"); ("first", Lit "E"); ("second", Lit "E"); ("type", Lit "E")]);
    ("make_while()", [("category", Lit "While"); ("attributes", Lit "[]"); ("body", Lit "E"); ("condition", Lit "E"); ("first", Lit "E"); ("second", Lit "E"); ("type", Lit "E")]);
